@@ -341,7 +341,14 @@ def rule_reason(R):
     roles.clause_reason_predicates(R, "reason")
 
 
+def rule_shared_fresh(R):
+    """a refused or garbled CONNACK says nothing about the stored session: the reset that drops unacknowledged messages runs only on the no-session edge of an *accepted* CONNACK -- C05's placement clause"""
+    from .c05 import clause_fresh_reset
+    clause_fresh_reset(R, "fresh")
+
+
 def run(R):
+    R.rule("fresh", rule_shared_fresh)
     R.rule("reason", rule_reason)
     R.rule("limit", rule_limit)
     R.rule("final", rule_final)
